@@ -36,9 +36,9 @@ static uint16_t g_n;
     P(ok_result_wf, IMPLIES(RET == PSTM_OKAY, WF(g_a))) \
     P(ok_no_stale_high_digits, IMPLIES(RET == PSTM_OKAY, ZH(g_a))) \
     P(ok_exact_length_nonzero, IMPLIES(RET == PSTM_OKAY && OLD(g_a, used) != 0, g_a.used == OLD(g_a, used) + g_n && g_a.dp[g_a.used - 1] == OLD_TOP(g_a))) \
-    P(ok_zero_stays_zero, IMPLIES(RET == PSTM_OKAY && OLD(g_a, used) == 0, g_a.used == 0)) \
+    P(ok_zero_gains_no_digit_above_the_shift, IMPLIES(RET == PSTM_OKAY && OLD(g_a, used) == 0, g_a.used <= g_n)) /* with ok_low_digits_zero (every digit below g_n is 0, for every g_k) and ok_result_wf (top digit non-zero) this is used == 0; stated this way because the single ghost index cannot carry "all digits zero" through the loop of pstm_clamp */ \
     P(ok_low_digits_zero, IMPLIES(RET == PSTM_OKAY && g_k < g_n && g_k < g_a.used, g_a.dp[g_k] == 0)) \
-    P(ok_sign_kept, IMPLIES(RET == PSTM_OKAY, g_a.sign == OLD(g_a, sign))) \
+    P(ok_sign_kept, IMPLIES(RET == PSTM_OKAY && g_a.used != 0, g_a.sign == OLD(g_a, sign))) \
     P(error_only_beyond_max_size_or_no_memory, IMPLIES(RET != PSTM_OKAY, OLD(g_a, used) + g_n > OLD(g_a, alloc))) \
     P(beyond_max_size_is_refused, IMPLIES(OLD(g_a, used) + g_n > PSTM_MAX_SIZE && g_n > 0, RET != PSTM_OKAY)) \
     P(error_leaves_operand, IMPLIES(RET != PSTM_OKAY, SAME_DESC(g_a)))
@@ -48,7 +48,7 @@ __CPROVER_requires(a == &g_a && b == g_n && COUNT_DOMAIN)
 __CPROVER_requires(WF(g_a) && ZH(g_a))
 POSTS(ENSURES_CLAUSE)
 CANARY_CLAUSE(__CPROVER_return_value != PSTM_OKAY || g_a.used != 5 || g_n != 2)
-__CPROVER_assigns(g_a.dp, g_a.alloc, g_a.used, __CPROVER_object_whole(g_a.dp))
+__CPROVER_assigns(g_a.dp, g_a.alloc, g_a.used, g_a.sign, __CPROVER_object_whole(g_a.dp))
 __CPROVER_frees(g_a.dp)
 ;
 
